@@ -221,6 +221,10 @@ def rule_r2(rep, program: Program):
         r.inst({"dunder": name, "log branch": norm(rets[0]) if rets else None, "linear branch": norm(lin[0]) if lin else None})
         for which, e, la, lb in (("log", rets[0] if rets else None, "self.log_val", f"{other}.log_val"), ("linear", lin[0] if lin else None, "self.val", other)):
             good = isinstance(e, ast.Compare) and len(e.ops) == 1 and isinstance(e.ops[0], op) and norm(e.left) == la and norm(e.comparators[0]) == lb
+            if not good and e is not None:
+                # any other spelling is decided on the finite set of order types the result can depend on:
+                # the expression is folded for representatives of (weight, comparand) and compared with the real order
+                good = _same_order(e, op, which, other)
             if not good:
                 r.violate(PROP, f"LogRepFloat.{name}:{which}:{norm(e) if e is not None else None}", f"{name} ({which} branch) evaluates `{norm(e) if e is not None else None}` instead of `{la} {op.__name__} {lb}`: comparisons do not order values as their real counterparts", node=e or f.node, file=f.file)
     # reflected / unary operators
@@ -259,6 +263,83 @@ def rule_r2(rep, program: Program):
         if not ok:
             r.violate(PROP, "LogRepFloat.__init__:log-unguarded", "log(val) is not guarded by val > 0 (zero weight must map to -inf, not a domain error)", node=n, file=f.file)
     return r
+
+
+class _NoFold(Exception):
+    pass
+
+
+def _fold_num(e, env):
+    """Constant folding over floats for the comparison dunders (comparisons, and/or/not, conditional
+    expressions, log / exp, inf)."""
+    if isinstance(e, ast.Constant) and isinstance(e.value, (int, float, bool)):
+        return e.value
+    t = norm(e)
+    if t in env:
+        return env[t]
+    if t in ("inf", "math.inf", "np.inf"):
+        return math.inf
+    if isinstance(e, ast.UnaryOp) and isinstance(e.op, ast.USub):
+        return -_fold_num(e.operand, env)
+    if isinstance(e, ast.UnaryOp) and isinstance(e.op, ast.Not):
+        return not _fold_num(e.operand, env)
+    if isinstance(e, ast.BoolOp):
+        if isinstance(e.op, ast.And):
+            v = True
+            for x in e.values:
+                v = _fold_num(x, env)
+                if not v:
+                    return v
+            return v
+        v = False
+        for x in e.values:
+            v = _fold_num(x, env)
+            if v:
+                return v
+        return v
+    if isinstance(e, ast.IfExp):
+        return _fold_num(e.body if _fold_num(e.test, env) else e.orelse, env)
+    if isinstance(e, ast.Compare):
+        left = _fold_num(e.left, env)
+        for o, c in zip(e.ops, e.comparators):
+            right = _fold_num(c, env)
+            ok = {ast.Lt: left < right, ast.LtE: left <= right, ast.Gt: left > right, ast.GtE: left >= right, ast.Eq: left == right, ast.NotEq: left != right}.get(type(o))
+            if ok is None:
+                raise _NoFold
+            if not ok:
+                return False
+            left = right
+        return True
+    if isinstance(e, ast.Call) and norm(e.func) in ("log", "math.log", "np.log") and len(e.args) == 1:
+        v = _fold_num(e.args[0], env)
+        if v <= 0:
+            raise _NoFold  # domain error / warning: not an accepted way to compare
+        return math.log(v)
+    if isinstance(e, ast.Call) and norm(e.func) in ("exp", "math.exp", "np.exp") and len(e.args) == 1:
+        return math.exp(_fold_num(e.args[0], env))
+    raise _NoFold
+
+
+def _same_order(e, op, which, other) -> bool:
+    import operator as _op
+
+    real = {ast.Lt: _op.lt, ast.LtE: _op.le, ast.Gt: _op.gt, ast.GtE: _op.ge, ast.Eq: _op.eq, ast.NotEq: _op.ne}[op]
+    weights = (0.0, 0.5, 1.0, 2.0)
+    others = (0.0, 0.5, 1.0, 2.0, 3.0) if which == "log" else (-1.0, 0.0, 0.25, 0.5, 1.0, 2.0, 3.0)
+    lg = lambda v: -math.inf if v == 0 else math.log(v)  # noqa: E731
+    try:
+        for w in weights:
+            for o in others:
+                env = {"self.val": w, "self.log_val": lg(w)}
+                if which == "log":
+                    env.update({f"{other}.val": o, f"{other}.log_val": lg(o)})
+                else:
+                    env[other] = o
+                if bool(_fold_num(e, env)) != real(w, o):
+                    return False
+    except (_NoFold, ValueError, OverflowError, ZeroDivisionError, TypeError):
+        return False
+    return True
 
 
 def rule_r3(rep, program: Program):
